@@ -332,9 +332,14 @@ linux_directmap(struct os_init_data *ctl)
 	addrxlat_status status;
 
 	status = linux_directmap_by_pgt(&layout[0], ctl->sys, ctl->ctx);
-	if (status != ADDRXLAT_OK && opt_isset(ctl->popt, version_code))
-		status = linux_directmap_by_ver(&layout[0],
-						ctl->popt.version_code);
+	if (status != ADDRXLAT_OK) {
+		/* This failure is tolerated, but the page table
+		 * search may have left a message. */
+		clear_error(ctl->ctx);
+		if (opt_isset(ctl->popt, version_code))
+			status = linux_directmap_by_ver(
+				&layout[0], ctl->popt.version_code);
+	}
 	remove_rdirect(ctl->sys);
 	if (status == ADDRXLAT_OK) {
 		layout[0].meth = ADDRXLAT_SYS_METH_DIRECT;
